@@ -87,6 +87,10 @@ fn run(matches: &clap::ArgMatches) -> Result<()> {
 
     let mut commit = stack.get_branch_head().clone();
 
+    // The commit below the bottommost commit that is, or is to become, an applied
+    // patch. With no such commit, the branch head itself is the stack base.
+    let mut new_base_id = commit.id;
+
     while commit.parent_ids().count() == 1 {
         let parent = Rc::new(commit.get_parent_commit()?);
         if let Some(patchname) = stack
@@ -95,6 +99,7 @@ fn run(matches: &clap::ArgMatches) -> Result<()> {
         {
             applied.push(patchname.clone());
             patchify.append(&mut maybe_patchify);
+            new_base_id = parent.id;
         } else {
             maybe_patchify.push(commit.clone());
         }
@@ -105,6 +110,9 @@ fn run(matches: &clap::ArgMatches) -> Result<()> {
             // Reaching the original stack base can happen if, for example, the first
             // applied patch is amended. In this case, any commits descending from the
             // stack base should be patchified.
+            if !maybe_patchify.is_empty() {
+                new_base_id = commit.id;
+            }
             patchify.append(&mut maybe_patchify);
             break;
         }
@@ -187,6 +195,10 @@ fn run(matches: &clap::ArgMatches) -> Result<()> {
         .with_output_stream(get_color_stdout(matches))
         .transact(|trans| {
             trans.repair_appliedness(applied, unapplied, hidden);
+
+            // The applied patches may no longer sit on top of the previous stack base,
+            // e.g. when the history now ends at a merge commit.
+            trans.set_base(new_base_id)?;
 
             // Make patches of any linear sequence of commits on top of a patch.
             if !patchify.is_empty() {
